@@ -371,7 +371,7 @@ func c17Apps() []world.AppSpec {
 		u string
 		g []string
 	}
-	users := []ug{{"u1", []string{"g1"}}, {"u2", nil}}
+	users := []ug{{"u1", []string{"g1"}}, {"u2", nil}, {"u3", []string{"g1", "g2"}}}
 	reqs := []string{"", "a", "root.a", "root.p", "root.p.x", "root.p.new", "root.a.new", c17Recovery, "p.x", "root.A", "bad name", "root.p.n1.n2"}
 	tags := []string{"", "a", "root.p.x", "nsq"}
 	i := 0
@@ -379,6 +379,9 @@ func c17Apps() []world.AppSpec {
 		for _, rq := range reqs {
 			for _, tg := range tags {
 				for _, forced := range []bool{false, true} {
+					if u.u == "u3" && (forced || tg == "nsq" || rq == "bad name" || rq == "root.A" || rq == "root.p.n1.n2") {
+						continue // u3 only differs from u1 in its group list: reduced product
+					}
 					if forced && (tg == "root.p.x" || rq == "p.x" || rq == "root.A") {
 						continue // keep the product small: forced only matters for the last rule
 					}
@@ -577,7 +580,7 @@ func c17Shard(tier string, shard, n int) *CustomResult {
 
 func checkC17(tier string, seed int64) *CustomResult {
 	res := runSharded("c17", tier, shardCount())
-	res.Coverage["rule"] = "every rule chain of length 0..1 over {provided,user,tag,fixed(a|root.p.x|root.p.dyn|dyn)} x create x filter {none, allow u1, deny u1, allow group g1 (+2 thorough)} x parent rule {none, fixed p, fixed np+create, tag ns+create (may yield the leaf a) (+2 thorough)}, every pair of a reduced rule set, x 11 ACL layouts on root/a/p/x (+ root.default present or not) x users {u1[g1], u2[]} x 12 requested queue names x 4 tag values x forced flag; every application is submitted to the real core twice per configuration: from the initial tree (application removed and dynamic queues cleaned afterwards) and with carry-over of created queues. non-trivial = the reference or the core accepts the application (distinct by configuration, tree and application)"
+	res.Coverage["rule"] = "every rule chain of length 0..1 over {provided,user,tag,fixed(a|root.p.x|root.p.dyn|dyn)} x create x filter {none, allow u1, deny u1, allow group g1 (+2 thorough)} x parent rule {none, fixed p, fixed np+create, tag ns+create (may yield the leaf a) (+2 thorough)}, every pair of a reduced rule set, x 11 ACL layouts on root/a/p/x (+ root.default present or not) x users {u1[g1], u2[], u3[g1,g2]} x 12 requested queue names x 4 tag values x forced flag; every application is submitted to the real core twice per configuration: from the initial tree (application removed and dynamic queues cleaned afterwards) and with carry-over of created queues. non-trivial = the reference or the core accepts the application (distinct by configuration, tree and application)"
 	res.Coverage["applications_per_configuration"] = len(c17Apps())
 	res.Coverage["explanation"] = "the reference evaluator is given the queue tree the real core reports immediately before the submission"
 	return res
